@@ -236,11 +236,30 @@ func (c *Chan[T]) execSend(s *Sim, g *G, v T) {
 			raceAcquire(&c.hb[tail])
 			raceRelease(&c.hb[tail])
 		}
+		// A declared receiver on an empty buffer is, in a real execution, either parked in the
+		// receive queue (the runtime then hands the value to it directly, completing its receive
+		// or select) or has not reached the operation yet (the value is buffered). Both are
+		// legal; the decision stream picks, and the baseline policy is the direct hand-off.
+		if c.n == 0 && s.hasPending(&c.chanCore, g, true) && s.choose(2) == 0 {
+			p := s.choosePartner(&c.chanCore, g, true)
+			c.deliver(p, v)
+			raceRelease(&p.g.wakeSync)
+			return
+		}
 		c.buf[tail] = v
 		c.n++
 		return
 	}
 	p := s.choosePartner(&c.chanCore, g, true)
+	c.deliver(p, v)
+	raceAcquire(&p.g.declSync)
+	raceRelease(&p.g.wakeSync)
+}
+
+// deliver completes the declared receive (or select receive case) p with value v.
+//
+//go:norace
+func (c *Chan[T]) deliver(p partner, v T) {
 	r := p.g
 	if p.ci < 0 {
 		rs := r.slot.(*recvSlot[T])
@@ -256,8 +275,6 @@ func (c *Chan[T]) execSend(s *Sim, g *G, v T) {
 		r.fired = p.ci
 	}
 	r.completed = true
-	raceAcquire(&r.declSync)
-	raceRelease(&r.wakeSync)
 }
 
 // Recv is `<-c`.
